@@ -218,4 +218,106 @@ MUTANTS += [
              ('src/srat.rs', "self.flags |= MemoryAffinityFlags::HotPluggable as u32;", "self.mem_flags |= MemoryAffinityFlags::HotPluggable as u32;"),
              ('src/srat.rs', "self.flags |= MemoryAffinityFlags::NonVolatile as u32;", "self.mem_flags |= MemoryAffinityFlags::NonVolatile as u32;"),
              ('src/srat.rs', "        sink.dword(((self.length >> 32) & 0xffff_ffff) as u32);\n        sink.dword(0); // reserved\n        sink.dword(self.flags);", "        sink.dword(((self.length >> 32) & 0xffff_ffff) as u32);\n        sink.dword(0); // reserved\n        sink.dword(self.mem_flags);")]),
+ dict(prop='ALL', name='Checksum moved into a private module and re-exported under its old path', expect=None,
+      edits=[('src/lib.rs', '''/// Object used to keep track of a rolling u8 sum, for which
+/// the checksum can be derived via value().
+#[derive(Debug, Default)]
+pub struct Checksum {
+    value: u8,
+}
+
+impl AmlSink for Checksum {
+    fn byte(&mut self, byte: u8) {
+        self.add(byte);
+    }
+}
+
+impl Checksum {
+    pub fn append(&mut self, data: &[u8]) {
+        let mut value: u8 = self.value;
+        for b in data {
+            value = value.wrapping_add(*b);
+        }
+
+        self.value = value;
+    }
+
+    pub fn delete(&mut self, data: &[u8]) {
+        let mut value: u8 = self.value;
+        for b in data {
+            value = value.wrapping_sub(*b);
+        }
+
+        self.value = value;
+    }
+
+    pub fn add(&mut self, data: u8) {
+        self.value = self.value.wrapping_add(data);
+    }
+
+    pub fn sub(&mut self, data: u8) {
+        self.value = self.value.wrapping_sub(data);
+    }
+
+    pub fn raw_value(&self) -> u8 {
+        self.value
+    }
+
+    pub fn value(&self) -> u8 {
+        (255 - self.value).wrapping_add(1)
+    }
+}
+''', ''),
+             ('src/lib.rs', 'pub mod aml;', 'mod checksum;\npub use checksum::Checksum;\n\npub mod aml;'),
+             ('src/checksum.rs', None, '''use crate::AmlSink;
+
+/// Object used to keep track of a rolling u8 sum, for which
+/// the checksum can be derived via value().
+#[derive(Debug, Default)]
+pub struct Checksum {
+    value: u8,
+}
+
+impl AmlSink for Checksum {
+    fn byte(&mut self, byte: u8) {
+        self.add(byte);
+    }
+}
+
+impl Checksum {
+    pub fn append(&mut self, data: &[u8]) {
+        let mut value: u8 = self.value;
+        for b in data {
+            value = value.wrapping_add(*b);
+        }
+
+        self.value = value;
+    }
+
+    pub fn delete(&mut self, data: &[u8]) {
+        let mut value: u8 = self.value;
+        for b in data {
+            value = value.wrapping_sub(*b);
+        }
+
+        self.value = value;
+    }
+
+    pub fn add(&mut self, data: u8) {
+        self.value = self.value.wrapping_add(data);
+    }
+
+    pub fn sub(&mut self, data: u8) {
+        self.value = self.value.wrapping_sub(data);
+    }
+
+    pub fn raw_value(&self) -> u8 {
+        self.value
+    }
+
+    pub fn value(&self) -> u8 {
+        (255 - self.value).wrapping_add(1)
+    }
+}
+''')]),
 ]
